@@ -208,12 +208,22 @@ type loopRunner struct {
 	mergedBase    int         // injected snapshots consumed or dropped before the current run
 }
 
+// noNetChange: in shadow mode LS finds changes by comparing the application's value with the live value of its
+// shadow entry; a commit that deletes a key LS holds no live version of, or that restores the value LS holds, is
+// no change for the next capture and gets no version of its own (DESIGN.md s.7).
+func noNetChange(shadow Ver, v int) bool {
+	if v == -1 {
+		return shadow.Absent() || shadow.Del
+	}
+	return !shadow.Absent() && !shadow.Del && shadow.Val == v
+}
+
 type appCommit struct {
 	K, V     int
 	Txn      int64
 	Clock    int  // the specification's clock right after the commit
 	PreStart bool // committed before the start-up capture of the current run
-	NoVer    bool // a delete of a key LS held no version of: no net change (DESIGN.md s.7)
+	NoVer    bool // a delete of a key LS held no live version of, or a put of the value LS holds: no net change (DESIGN.md s.7)
 }
 
 func cmdLoop(args []string) error {
@@ -524,7 +534,7 @@ func runLoopBehaviour(R *Result, in loopInput, beh []loopStep, bi int) error {
 				lr.appLast[a.K] = a.V
 				_ = before
 				lr.appCommits = append(lr.appCommits, appCommit{a.K, a.V, w.lastTxn(1), st.Clock, a.At == "boot" || a.At == "start.listed",
-					!in.Native && a.V == -1 && pdbBefore[strconv.Itoa(a.K)].Absent()})
+					!in.Native && noNetChange(pdbBefore[strconv.Itoa(a.K)], a.V)})
 				lr.sinceStore = true
 				if a.Window {
 					windowUsed = a.At
